@@ -62,6 +62,10 @@ STRENGTHENED = {
     "XH_3": "(C17) cache names that end in s / q / l / '.' at the front of the name pool",
     "XH_4": "(C15) qgen: table-qualified ORDER BY references spelled like a select-list alias stay as written",
     "XH_6": "(C14) qgen: sub-queries inside JOIN ... ON conditions",
+    "XJ_1": "(C09) the ideographic space and CRLF among the separators of the surface variants (first caught by C05 / C04 only)",
+    "XJ_2": "(C07) every slot of the grammar that wants an integer fed with almost-integers (superscript / circled digits, fractions, signs, hex, ...)",
+    "XJ_3": "(C03 / C09) one-letter table aliases and qualifiers b / x / B / n in the structure-aware statements (first caught by C05 only)",
+    "XL_1": "(C11) rebuilding every node from get_params_dict() must give an equal node with an equal hash",
     "C19_3": "pattern 'blanks' (long runs of white space) in the scaled inputs; seconds used only in the search phase",
 }
 
